@@ -757,6 +757,35 @@ func trav(r *Run, focus string) {
 		r.Probe("honest-clause-checked")
 	}
 
+	ctxChecked := false
+	checkCtx := func() {
+		if focus != "C04" || ctxChecked || !tw.stopCalled {
+			return
+		}
+		tw.mu.Lock()
+		done := tw.stopDone
+		tw.mu.Unlock()
+		if !done {
+			return
+		}
+		// let everything that Stop woke run (nothing completes a DoQuery here)
+		r.Settle()
+		ctxChecked = true
+		still := map[*tpending]bool{}
+		for _, q := range tw.sortedPending() {
+			still[q] = true
+		}
+		for _, p := range tw.pendingAtStop {
+			if !still[p] {
+				continue
+			}
+			if p.ctx.Err() == nil {
+				r.Violate("ctx-not-cancelled-on-stop", "query to %s was in flight when Stop was called (and Stop has returned); at the next quiescent point its context is still not done", p.astr)
+				return
+			}
+			r.Probe("ctx-cancelled-on-stop")
+		}
+	}
 	// ---- main loop
 	budget := ch.Range(20, 400, "budget")
 	budget *= 12
@@ -792,14 +821,16 @@ func trav(r *Run, focus string) {
 		}
 		if focus == "C04" {
 			checkDiscipline()
+			checkCtx()
 		}
 		tw.mu.Lock()
 		np, busy := len(tw.pending), tw.apiBusy
 		tw.mu.Unlock()
 		quiescent := np == 0 && busy == 0 && r.Sched.NumParked() == 0
 		{
-			// try to observe the stall
-			if !tw.stopCalled && stalledNow() {
+			// try to observe the stall (in event mode only at rest: receiving wakes the run
+			// loop, and polling it at every step would keep it busy for ever)
+			if !tw.stopCalled && (r.YieldMode || r.Sched.NumParked() == 0) && stalledNow() {
 				stalledSeen++
 				r.Logf("stalled inflight=%d", np)
 				if focus == "C03" {
@@ -888,24 +919,7 @@ func trav(r *Run, focus string) {
 	}
 	r.Settle()
 	// C04: every query in flight at Stop has its context cancelled by the next quiescence
-	if focus == "C04" {
-		for _, p := range tw.pendingAtStop {
-			if p.ctx.Err() == nil {
-				still := false
-				for _, q := range tw.sortedPending() {
-					if q == p {
-						still = true
-					}
-				}
-				if still {
-					r.Violate("ctx-not-cancelled-on-stop", "query to %s was in flight when Stop was called and its context is still not done at the next quiescent point", p.astr)
-					return
-				}
-			} else {
-				r.Probe("ctx-cancelled-on-stop")
-			}
-		}
-	}
+	checkCtx()
 	drain(2000)
 	r.Settle()
 	if r.Failed() {
